@@ -69,6 +69,7 @@ type ccase struct {
 	hasInit            bool
 	initIns, initOuts  []int
 	steps              []int
+	invKind, initKind  int // 0 pointer to func, 1 plain func, 2 nil, 3 pointer to a non-func
 }
 
 func ints(l []int) string {
@@ -95,6 +96,8 @@ func (p *cprovider) encode() string {
 		sh = fmt.Sprintf("2 %s %s", ints(p.ins), ints(p.outs))
 	case 3:
 		sh = fmt.Sprintf("3 %s %s %s %s", ints(p.ins), ints(p.innerIns), ints(p.innerOuts), ints(p.outs))
+	case 5:
+		sh = fmt.Sprintf("5 %s %s", ints(p.ins), ints(p.outs))
 	}
 	pt := 0
 	if p.passthru {
@@ -120,6 +123,9 @@ func (c *ccase) encode() string {
 	}
 	fmt.Fprintf(&sb, " | %d %s %s", hi, ints(c.initIns), ints(c.initOuts))
 	fmt.Fprintf(&sb, " | %s", ints(c.steps))
+	if c.invKind != 0 || c.initKind != 0 {
+		fmt.Fprintf(&sb, " | %d %d", c.invKind, c.initKind)
+	}
 	return sb.String()
 }
 
@@ -135,6 +141,13 @@ func (r *tokReader) next() int {
 	v := atoi(r.toks[r.pos])
 	r.pos++
 	return v
+}
+
+func (r *tokReader) more() bool {
+	for r.pos < len(r.toks) && r.toks[r.pos] == "|" {
+		r.pos++
+	}
+	return r.pos < len(r.toks)
 }
 
 func (r *tokReader) counted() []int {
@@ -186,7 +199,7 @@ func parseChain(line string) *ccase {
 		switch p.shape {
 		case 1:
 			p.lit = r.next()
-		case 2:
+		case 2, 5:
 			p.ins, p.outs = r.counted(), r.counted()
 		case 3:
 			p.ins, p.innerIns, p.innerOuts, p.outs = r.counted(), r.counted(), r.counted(), r.counted()
@@ -207,6 +220,10 @@ func parseChain(line string) *ccase {
 	c.hasInit = r.next() != 0
 	c.initIns, c.initOuts = r.counted(), r.counted()
 	c.steps = r.counted()
+	if r.more() {
+		c.invKind = r.next()
+		c.initKind = r.next()
+	}
 	return c
 }
 
@@ -259,6 +276,9 @@ func mkval(tc int, failing bool, pid, s int) reflect.Value {
 func (rn *runner) makeProvider(p *cprovider) any {
 	var fn any
 	switch p.shape {
+	case 5:
+		// a typed nil function value
+		fn = reflect.Zero(reflect.FuncOf(rtypes(p.ins), rtypes(p.outs), false)).Interface()
 	case 1:
 		fn = mkval(p.lit, false, p.pid, 0).Interface()
 	case 2:
@@ -461,6 +481,10 @@ func classifyBindErr(msg string) int {
 		return 8
 	case strings.Contains(msg, "cannot create useful zero"):
 		return 9
+	case strings.Contains(msg, "is a nil function"):
+		return 1
+	case strings.Contains(msg, "not nil"):
+		return 1
 	}
 	return 0
 }
@@ -555,25 +579,49 @@ func (rn *runner) bindCase(c *ccase) (err error, plan string, invoke, init refle
 	items := rn.buildItems(c, idToPid)
 	coll := nject.Sequence("", items...)
 	invPtr := reflect.New(reflect.FuncOf(rtypes(c.invIns), rtypes(c.invOuts), false))
+	var invArg any = invPtr.Interface()
+	switch c.invKind {
+	case 1:
+		invArg = reflect.MakeFunc(invPtr.Type().Elem(), func([]reflect.Value) []reflect.Value { return nil }).Interface()
+	case 2:
+		invArg = nil
+	case 3:
+		x := 3
+		invArg = &x
+	}
 	var initPtr reflect.Value
 	var initArg any
 	if c.hasInit {
 		initPtr = reflect.New(reflect.FuncOf(rtypes(c.initIns), rtypes(c.initOuts), false))
 		initArg = initPtr.Interface()
-	}
-	observeMu.Lock()
-	var got *nject.VerifBindInfo
-	nject.VerifSetBindObserver(func(info nject.VerifBindInfo) {
-		if info.Real {
-			cp := info
-			got = &cp
+		switch c.initKind {
+		case 1:
+			initArg = reflect.MakeFunc(initPtr.Type().Elem(), func([]reflect.Value) []reflect.Value { return nil }).Interface()
+		case 3:
+			x := 3
+			initArg = &x
 		}
-	})
-	err = coll.Bind(invPtr.Interface(), initArg)
-	nject.VerifSetBindObserver(nil)
-	observeMu.Unlock()
+	}
+	var got *nject.VerifBindInfo
+	func() {
+		observeMu.Lock()
+		defer observeMu.Unlock()
+		defer nject.VerifSetBindObserver(nil)
+		nject.VerifSetBindObserver(func(info nject.VerifBindInfo) {
+			if info.Real {
+				cp := info
+				got = &cp
+			}
+		})
+		err = coll.Bind(invArg, initArg)
+	}()
 	if err != nil {
-		return err, "", reflect.Value{}, reflect.Value{}
+		// on error the caller's function variables must be left untouched
+		plan = "UNTOUCHED 1"
+		if !invPtr.Elem().IsNil() || (c.hasInit && !initPtr.Elem().IsNil()) {
+			plan = "UNTOUCHED 0"
+		}
+		return err, plan, reflect.Value{}, reflect.Value{}
 	}
 	if got != nil {
 		plan = showPlan(*got, idToPid)
@@ -601,7 +649,7 @@ func runChain(line string) string {
 	rn := &runner{}
 	err, plan, invoke, init := rn.bindCase(c)
 	if err != nil {
-		return fmt.Sprintf("BIND err %d", classifyBindErr(err.Error()))
+		return fmt.Sprintf("BIND err %d ; %s", classifyBindErr(err.Error()), plan)
 	}
 	var res []string
 	func() {
